@@ -28,7 +28,7 @@ PHASES = ["syntax", "unknown_ref", "obj_processor_textx", "obj_processor_valueer
 RULE = ("(graph, failing file, phase) triples: generated import graphs (1-5 files) x failing file drawn from the closure x 6 "
         "phases x repository kind {metamodel global repository, caller-held GlobalModelRepository, none} x provider "
         "{PlainNameImportURI, FQNImportURI}; an unrelated file is loaded successfully first. non-trivial: the failing file is "
-        "not the root and is imported by >=2 files, or the graph has a cycle; distinct by canonical JSON")
+        "not the root and is imported by >=2 files, or the graph has a cycle; also: roots loaded from a string (with/without file name) under GlobalRepo providers with a global repository; distinct by canonical JSON")
 ASSUMPTIONS = [
     "models of the failed attempt are observed through object/model processors and the repositories' contents",
     "a caller-held repository is filled through GlobalModelRepository.load_model (public API of textx.scoping)",
